@@ -171,6 +171,57 @@ def ctstep(d, sub, which, opts, rule_ids_map=None):
     return json.loads(lines[-1])
 
 
+def deprecated_entry(res, prop):
+    """CTParserBuilder::process_file (deprecated, still public) copies the builder field by field and
+    then builds: for every parser setting, every value, and grammars with / without conflicts and
+    warnings, it must succeed or fail exactly as build() does and generate the same module
+    (two fresh directories per configuration)."""
+    import shutil
+    cfgs = []
+    PKEYS = ["yacckind", "recoverer", "sformat", "eoc", "wae", "showw", "vis", "edition", "mod_name"]
+    for g in ("g1", "gconf", "gwarn", "gconfe"):
+        for k in PKEYS:
+            for v in VALUES[k]:
+                for k2, v2 in (("eoc", True), ("eoc", False), ("wae", True)):
+                    o = dict(OPTS0)
+                    o[k2] = v2
+                    o[k] = v
+                    if g == "g1" and k2 != "eoc":
+                        continue
+                    c = (g, tuple(sorted((a, str(b)) for a, b in o.items())))
+                    if c not in [x[0] for x in cfgs]:
+                        cfgs.append((c, g, o, "%s/%s=%s/%s=%s" % (g, k, v, k2, v2)))
+    lines = []
+    root = os.path.join(res.wd, "entry")
+
+    def one(i):
+        _, g, o, label = cfgs[i]
+        out = {}
+        for which in ("parser", "process_file"):
+            d = os.path.join(root, "c%d-%s" % (i, which))
+            shutil.rmtree(d, ignore_errors=True)
+            os.makedirs(d)
+            open(os.path.join(d, "g.y"), "w").write(G[g])
+            open(os.path.join(d, "l.l"), "w").write(L["l1"])
+            r = ctstep(d, None, which, o)
+            out[which] = "%s|%s" % ("ok" if r.get("ok") else "err", r.get("grammar_out", {}).get("digest") if r.get("ok") else "")
+            shutil.rmtree(d, ignore_errors=True)
+        return json.dumps(dict(ev="entry", id="entry-" + label, build=out["parser"], process_file=out["process_file"])) + "\n"
+    with concurrent.futures.ThreadPoolExecutor(max_workers=max(2, core.NCPU - 4)) as ex:
+        lines = list(ex.map(one, range(len(cfgs))))
+    shutil.rmtree(root, ignore_errors=True)
+    from . import p_src
+    v = p_src.validate(res, "TracePipe", 77, lines, dict(PROP=prop))
+    res.add_tlc(v["r"])
+    for d in v["devs"]:
+        res.deviation(d, dict(config=d["inst"]))
+    nok = sum(1 for x in lines if '"build": "ok|' in x)
+    res.notes["deprecated_entry_point"] = dict(configurations=len(lines), succeeded=nok, failed=len(lines) - nok)
+    res.cov["traces_validated_against_impl"] += len(lines)
+    if not lines or nok == 0 or nok == len(lines):
+        raise core.ToolError("vacuity: the process_file family has no succeeding / no failing configuration")
+
+
 def run_history(wd, hid, h, gi, li):
     d = os.path.join(wd, "h", hid)
     shutil.rmtree(d, ignore_errors=True)
@@ -342,6 +393,8 @@ def main(pid, tier, replay=None):
             res.cov["inconclusive"] += 1
             res.notes["tlaps_output"] = p_out[-600:]
     run(res, "C18", tier, replay)
+    if not replay:
+        deprecated_entry(res, "C18")
     res.assumptions += ["file modification times follow a monotonic clock (edits get a newer time than anything written before)",
                         "rustc, the file system and the build timestamp embedded in generated files are outside the model",
                         "a combined build that fails in the lexer specification is not expected to touch the parser's output"]
